@@ -1,5 +1,11 @@
 //! C13 harness: serial allocation on a real connection and the reply constructors.
 //! Same line protocol as ocaml/c13/driver.ml.
+//!   hello pre=<k> reply=<same|other|none>  -> hello serial=<serial of the Hello read at the peer> result=<ok|err>
+//!   rhist <op> ...     as hist, alloc_serial / send_message through RpcConn (ops a and s:...:c)
+//!   hist <op> ...      op := z:<bo>:<preset> (socket full, refused at zero bytes, context dropped) -> z:<ctx.serial()>
+//!                            q:<bo>:<preset> (partial write, force_finish) -> q:<ctx.serial()>:<wire serial>:<flag>
+//!                            f:<bo>:<preset>:<c|W> (closed attached descriptor: EBADF) -> f:<ctx.serial()|->
+//!                            g (peer shut down; later sends give io:<ctx.serial()|->)
 //!   hist <op> ...      op := a | p:<l|B>:<preset|->:<g|b>:<k> (send, partial write, into_progress, k allocations, resume, finish) | x<n> (n allocations, prints the last) | s:<l|B>:<preset|->:<g|b>:<c|W>   (c: send_message + write_all, W: send_message_write_all;
 //!                                                              b: the message has an invalid member name -> marshal error)
 //!     -> a:<serial> | s:<reported>:<serial in bytes 8..12 read at the peer>:<byte order flag read at the peer> | e
@@ -52,15 +58,18 @@ fn drain(peer: &mut std::os::unix::net::UnixStream, got: &mut Vec<u8>) {
     peer.set_nonblocking(false).unwrap();
 }
 
-fn hist(ops: &[&str]) -> String {
-    let (mut conn, mut peer) = match std::panic::catch_unwind(|| connect_pair(false)) {
+fn hist(ops: &[&str], use_rpc: bool) -> String {
+    let (conn, mut peer) = match std::panic::catch_unwind(|| connect_pair(true)) {
         Ok(p) => p,
         Err(_) => return "SETUPFAIL".to_string(),
     };
+    // with use_rpc (line kind rhist) alloc_serial and send_message go through RpcConn, which delegates to the same counter
+    let mut rpc = rustbus::connection::rpc_conn::RpcConn::new(conn);
+    let mut peer_closed = false;
     peer.set_read_timeout(Some(std::time::Duration::from_secs(20))).unwrap();
-    if ops.iter().any(|o| o.starts_with("p:")) {
+    if ops.iter().any(|o| o.starts_with("p:") || o.starts_with("q:")) {
         use std::os::fd::{AsRawFd, BorrowedFd};
-        let b = unsafe { BorrowedFd::borrow_raw(conn.send.as_raw_fd()) };
+        let b = unsafe { BorrowedFd::borrow_raw(rpc.conn_mut().send.as_raw_fd()) };
         nix::sys::socket::setsockopt(&b, nix::sys::socket::sockopt::SndBuf, &4608usize).unwrap();
     }
     let mut out = Vec::new();
@@ -68,8 +77,15 @@ fn hist(ops: &[&str]) -> String {
         if o.is_empty() {
             continue;
         }
+        if *o == "g" {
+            // the peer goes away: every later write fails with EPIPE (SIGPIPE is ignored by the Rust runtime)
+            let _ = peer.shutdown(std::net::Shutdown::Both);
+            peer_closed = true;
+            out.push("g".to_string());
+            continue;
+        }
         if *o == "a" {
-            match std::panic::catch_unwind(std::panic::AssertUnwindSafe(|| conn.send.alloc_serial())) {
+            match std::panic::catch_unwind(std::panic::AssertUnwindSafe(|| if use_rpc { rpc.alloc_serial() } else { rpc.conn_mut().send.alloc_serial() })) {
                 Ok(s) => out.push(format!("a:{}", s.get())),
                 Err(_) => {
                     out.push("PANIC".to_string());
@@ -84,7 +100,7 @@ fn hist(ops: &[&str]) -> String {
             let r = std::panic::catch_unwind(std::panic::AssertUnwindSafe(|| {
                 let mut last = 0u32;
                 for _ in 0..n {
-                    last = std::hint::black_box(conn.send.alloc_serial()).get();
+                    last = std::hint::black_box(rpc.conn_mut().send.alloc_serial()).get();
                 }
                 last
             }));
@@ -105,10 +121,110 @@ fn hist(ops: &[&str]) -> String {
             typ: MessageType::Call,
             flags: 0,
         };
-        msg.dynheader.member = Some(if f[3] == "b" { "not a member!".to_string() } else { "Member".to_string() });
+        msg.dynheader.member = Some(if f.get(3) == Some(&"b") { "not a member!".to_string() } else { "Member".to_string() });
         msg.dynheader.object = Some("/obj".to_string());
         if f[2] != "-" {
             msg.dynheader.serial = NonZeroU32::new(f[2].parse().unwrap());
+        }
+        if f[0] == "z" {
+            // the socket is full: the first sendmsg is refused at zero bytes, the context is dropped
+            let sfd = { use std::os::fd::AsRawFd; rpc.conn_mut().send.as_raw_fd() };
+            let chunk = [0xABu8; 512];
+            let mut junk = 0usize;
+            loop {
+                let r = unsafe { nix::libc::send(sfd, chunk.as_ptr() as *const nix::libc::c_void, chunk.len(), nix::libc::MSG_DONTWAIT) };
+                if r <= 0 {
+                    break;
+                }
+                junk += r as usize;
+            }
+            let tok = std::panic::catch_unwind(std::panic::AssertUnwindSafe(|| match rpc.conn_mut().send.send_message(&msg) {
+                Err(_) => "e".to_string(),
+                Ok(mut ctx) => {
+                    let ser = ctx.serial();
+                    match ctx.write_once(rustbus::connection::Timeout::Nonblock) {
+                        Ok(n) if n > 0 => {
+                            ctx.force_finish();
+                            "NOZERO".to_string()
+                        }
+                        _ => match std::panic::catch_unwind(std::panic::AssertUnwindSafe(move || drop(ctx))) {
+                            Ok(()) => format!("z:{}", ser.get()),
+                            Err(_) => "z:droppanic".to_string(),
+                        },
+                    }
+                }
+            }))
+            .unwrap_or("PANIC".to_string());
+            let mut got = Vec::new();
+            drain(&mut peer, &mut got);
+            if tok == "PANIC" {
+                out.push(tok);
+                break;
+            }
+            out.push(if got.len() != junk { format!("{}:leak{}", tok, got.len() as i64 - junk as i64) } else { tok });
+            if out.last().map(|t| t == "NOZERO").unwrap_or(false) {
+                break;
+            }
+            continue;
+        }
+        if f[0] == "q" {
+            // force_finish after a partial write
+            msg.body.push_param(&vec![0x5au8; 200_000][..]).unwrap();
+            let tok = std::panic::catch_unwind(std::panic::AssertUnwindSafe(|| match rpc.conn_mut().send.send_message(&msg) {
+                Err(_) => "e".to_string(),
+                Ok(mut ctx) => {
+                    let ser = ctx.serial();
+                    let total = ctx.bytes_total();
+                    let r = ctx.write_once(rustbus::connection::Timeout::Nonblock);
+                    let partial = matches!(r, Ok(n) if n >= 16 && n < total);
+                    ctx.force_finish();
+                    if partial { format!("q:{}", ser.get()) } else { "NOPARTIAL".to_string() }
+                }
+            }))
+            .unwrap_or("PANIC".to_string());
+            let mut got = Vec::new();
+            drain(&mut peer, &mut got);
+            if tok == "NOPARTIAL" || tok == "PANIC" {
+                out.push(tok);
+                break;
+            }
+            out.push(if got.len() >= 16 { format!("{}:{}:{}", tok, u32_at(&got, 8, got[0]), got[0] as char) } else { tok });
+            continue;
+        }
+        if f[0] == "f" {
+            // the message carries a descriptor that is not open: sendmsg fails with EBADF
+            msg.body = MarshalledMessageBody::from_parts(vec![], 0, vec![rustbus::wire::UnixFd::new(1_000_000)], String::new(), bo);
+            let tok = std::panic::catch_unwind(std::panic::AssertUnwindSafe(|| if f[3] == "W" {
+                match rpc.conn_mut().send.send_message_write_all(&msg) {
+                    Ok(s) => format!("f:sent{}", s.get()),
+                    Err(_) => "f:-".to_string(),
+                }
+            } else {
+                match rpc.conn_mut().send.send_message(&msg) {
+                    Err(_) => "e".to_string(),
+                    Ok(ctx) => {
+                        let ser = ctx.serial();
+                        match ctx.write_all() {
+                            Ok(s) => format!("f:sent{}", s.get()),
+                            Err(pair) => {
+                                let _e = rustbus::connection::ll_conn::force_finish_on_error(pair);
+                                format!("f:{}", ser.get())
+                            }
+                        }
+                    }
+                }
+            }))
+            .unwrap_or("PANIC".to_string());
+            let mut got = Vec::new();
+            if !peer_closed {
+                drain(&mut peer, &mut got);
+            }
+            if tok == "PANIC" {
+                out.push(tok);
+                break;
+            }
+            out.push(if got.is_empty() { tok } else { format!("{}:leak{}", tok, got.len()) });
+            continue;
         }
         if f[0] == "p" {
             // a send that is suspended after a partial write, k allocations, resume, written to the end
@@ -124,7 +240,7 @@ fn hist(ops: &[&str]) -> String {
                 }
                 Some(if v.is_empty() { "-".to_string() } else { v.join("+") })
             };
-            let first = match conn.send.send_message(&msg) {
+            let first = match rpc.conn_mut().send.send_message(&msg) {
                 Err(_) => None,
                 Ok(mut ctx) => {
                     let total = ctx.bytes_total();
@@ -138,7 +254,7 @@ fn hist(ops: &[&str]) -> String {
                     Some((ctx.into_progress(), total))
                 }
             };
-            let between = match allocs(&mut conn) {
+            let between = match allocs(rpc.conn_mut()) {
                 Some(b) => b,
                 None => {
                     out.push("PANIC".to_string());
@@ -148,7 +264,7 @@ fn hist(ops: &[&str]) -> String {
             match first {
                 None => out.push(if between == "-" { "e".to_string() } else { format!("e:{}", between) }),
                 Some((progress, total)) => {
-                    let mut ctx = rustbus::connection::ll_conn::SendMessageContext::resume(&mut conn.send, &msg, progress);
+                    let mut ctx = rustbus::connection::ll_conn::SendMessageContext::resume(&mut rpc.conn_mut().send, &msg, progress);
                     let ctx_serial = ctx.serial();
                     let mut got: Vec<u8> = Vec::new();
                     let mut rounds = 0usize;
@@ -182,26 +298,46 @@ fn hist(ops: &[&str]) -> String {
             }
             continue;
         }
-        let mut ctx_serial: Option<NonZeroU32> = None;
-        let reported = if f[4] == "W" {
-            conn.send.send_message_write_all(&msg).ok()
-        } else {
-            match conn.send.send_message(&msg) {
-                Ok(ctx) => {
-                    let s = ctx.serial();
-                    match ctx.write_all() {
-                        Ok(s2) => {
-                            ctx_serial = Some(s);
-                            Some(s2)
-                        }
-                        Err((ctx, _)) => {
-                            ctx.force_finish();
-                            None
+        // outcome of one send: Ok((serial returned, ctx.serial())), Err(Some(ctx.serial())) for an I/O failure after
+        // send_message succeeded, Err(None) when send_message itself failed; a panic (serials exhausted) is caught
+        let res = std::panic::catch_unwind(std::panic::AssertUnwindSafe(|| {
+            if f[4] == "W" {
+                match rpc.conn_mut().send.send_message_write_all(&msg) {
+                    Ok(s) => Ok((s, None)),
+                    Err(rustbus::connection::Error::MarshalError(_)) => Err((false, None)),
+                    Err(_) => Err((true, None)),
+                }
+            } else {
+                let r = if use_rpc { rpc.send_message(&mut msg) } else { rpc.conn_mut().send.send_message(&msg) };
+                match r {
+                    Ok(ctx) => {
+                        let s = ctx.serial();
+                        match ctx.write_all() {
+                            Ok(s2) => Ok((s2, Some(s))),
+                            Err((ctx, _)) => {
+                                ctx.force_finish();
+                                Err((true, Some(s)))
+                            }
                         }
                     }
+                    Err(_) => Err((false, None)),
                 }
-                Err(_) => None,
             }
+        }));
+        let res = match res {
+            Ok(r) => r,
+            Err(_) => {
+                out.push("PANIC".to_string());
+                break;
+            }
+        };
+        let (reported, ctx_serial) = match res {
+            Ok((s, c)) => (Some(s), c),
+            Err((true, c)) => {
+                out.push(format!("io:{}", c.map(|c| c.get().to_string()).unwrap_or("-".into())));
+                continue;
+            }
+            Err((false, _)) => (None, None),
         };
         match reported {
             Some(s) => {
@@ -218,6 +354,45 @@ fn hist(ops: &[&str]) -> String {
         }
     }
     out.join(" ")
+}
+
+/// DuplexConn::send_hello against a peer that answers with a method return whose reply serial is the
+/// Hello's serial (same), another one (other), or that carries none
+fn hello(kv: &HashMap<&str, &str>) -> String {
+    use std::io::Write;
+    let (mut conn, mut peer) = match std::panic::catch_unwind(|| connect_pair(false)) {
+        Ok(p) => p,
+        Err(_) => return "SETUPFAIL".to_string(),
+    };
+    peer.set_read_timeout(Some(std::time::Duration::from_secs(20))).unwrap();
+    let pre: usize = kv["pre"].parse().unwrap();
+    for _ in 0..pre {
+        conn.send.alloc_serial();
+    }
+    let mode = kv["reply"].to_string();
+    let t = std::thread::spawn(move || {
+        let bytes = read_message(&mut peer);
+        let (_, call) = decode(&bytes).unwrap();
+        let sent = u32_at(&bytes, 8, bytes[0]);
+        let mut r = call.make_response();
+        match mode.as_str() {
+            "same" => {}
+            "other" => r.dynheader.response_serial = NonZeroU32::new(sent.wrapping_add(1).max(1)),
+            _ => {
+                // a message without a reply serial: a signal
+                r = rustbus::message_builder::MessageBuilder::new().signal("org.example.I", "Sig", "/o").build();
+            }
+        }
+        r.body.push_param(":1.99").unwrap();
+        let mut buf = Vec::new();
+        rustbus::wire::marshal::marshal(&r, NonZeroU32::new(1000).unwrap(), &mut buf).unwrap();
+        buf.extend_from_slice(r.get_buf());
+        peer.write_all(&buf).unwrap();
+        (sent, peer)
+    });
+    let res = conn.send_hello(rustbus::connection::Timeout::Duration(std::time::Duration::from_secs(20)));
+    let (sent, _peer) = t.join().unwrap();
+    format!("hello serial={} result={}", sent, match res { Ok(name) => if name == ":1.99" { "ok".to_string() } else { format!("ok?{}", name) }, Err(_) => "err".to_string() })
 }
 
 fn opt(s: &str) -> Option<String> {
@@ -351,7 +526,12 @@ fn main() {
     rbverif::line_loop(|line| {
         let toks: Vec<&str> = line.split(' ').collect();
         match toks[0] {
-            "hist" => hist(&toks[1..]),
+            "hist" => hist(&toks[1..], false),
+            "rhist" => hist(&toks[1..], true),
+            "hello" => {
+                let kv: HashMap<&str, &str> = toks[1..].iter().filter_map(|t| t.split_once('=')).collect();
+                hello(&kv)
+            }
             "reply" => {
                 let kv: HashMap<&str, &str> = toks[2..].iter().filter_map(|t| t.split_once('=')).collect();
                 reply(toks[1], &kv)
